@@ -102,11 +102,19 @@ Proof.
 Qed.
 Print Assumptions C06_hk_path_compression_unobservable.
 
+(* the variant of the loop that also records the arguments of every union call (what the harness observes through
+   a spy on networkx's UnionFind and compares call by call) is the same loop: its answer is hk_eq_gen's *)
+Theorem C06_hk_trace_model : forall tie syms A B, fst (hk_eq_log tie syms A B) = hk_eq_gen tie syms A B.
+Proof. exact hk_eq_log_fst. Qed.
+Print Assumptions C06_hk_trace_model.
+
 Example C06_hk_example :
   let A := mkdfa [0;1] [0;1] [(0,[(0,1);(1,0)]);(1,[(0,0);(1,1)])] 0 [0] false in  (* even number of 0s *)
   let B := mkdfa [0;1;2;3] [0;1] [(0,[(0,1);(1,2)]);(1,[(0,2);(1,1)]);(2,[(0,1);(1,0)]);(3,[])] 0 [0;2] true in
   let C := mkdfa [0;1;2] [0;1] [(0,[(0,1)]);(1,[(0,2)]);(2,[])] 0 [0;2] true in     (* {e, 00} *)
   valid_dfa A = true /\ valid_dfa B = true /\ valid_dfa C = true /\
   hk_eq A B = Ok true /\ hk_eq B A = Ok true /\ hk_eq A C = Ok false /\ hk_eq C C = Ok true /\
-  hk_eq_gen (fun _ _ => false) [1;0] A B = Ok true /\ hk_eq_gen (fun _ _ => false) [1;0] C A = Ok false.
+  hk_eq_gen (fun _ _ => false) [1;0] A B = Ok true /\ hk_eq_gen (fun _ _ => false) [1;0] C A = Ok false /\
+  hk_eq_log (fun _ _ => true) [0;1] A B =
+    (Ok true, [(inl (Some 0), inr (Some 0)); (inl (Some 1), inr (Some 1)); (inl (Some 0), inr (Some 2))]).
 Proof. vm_compute. repeat split. Qed.
